@@ -76,7 +76,15 @@ def determinism(args):
         if mismatches:
             rc = 1
     os.makedirs(os.path.join(VERIF, "evidence"), exist_ok=True)
-    json.dump(result, open(os.path.join(VERIF, "evidence", "selftest_determinism.json"), "w"), indent=1)
+    out = os.path.join(VERIF, "evidence", "selftest_determinism.json")
+    merged = {}
+    if os.path.exists(out):
+        try:
+            merged = json.load(open(out))
+        except Exception:
+            merged = {}
+    merged.update(result)
+    json.dump(merged, open(out, "w"), indent=1, sort_keys=True)
     return rc
 
 
